@@ -2,6 +2,7 @@ package net
 
 import (
 	"bytes"
+	"crypto/sha256"
 	"encoding/binary"
 	"fmt"
 	stdnet "net"
@@ -512,6 +513,12 @@ func permitScenario(t int, seed int64, slow bool) ([]map[string]any, error) {
 	var opened []openStream
 	for i := 0; i < nin; i++ {
 		key := []byte{byte(t), 0xee, byte(i), byte(rng.Intn(256))}
+		if i == 1 || rng.Intn(5) == 0 {
+			// a key the node already holds: every verdict of this offer is a decline while slots are free - the offer must not
+			// keep a slot (sweep mutant C/27-C16 took the slot before looking at the verdicts)
+			kid := sha256.Sum256(key)
+			A.Store.Put(key, kid[:], []byte{1, 2, 3})
+		}
 		off := &portalwire.Offer{ContentKeys: [][]byte{key}}
 		ob, _ := off.MarshalSSZ()
 		resp, err := C.D5.TalkRequest(A.P.Self(), string(portalwire.History), append([]byte{portalwire.OFFER}, ob...))
